@@ -190,6 +190,28 @@ def gen_assoc(g, env, feats, depth=0, outer_names=()):
 
 
 # ------------------------------------------------------------------ routines
+def hide_parent_members(g, env, feats):
+    """drop (flag parent_object_members off) the components of parent-scope objects that are reached through an imported type"""
+    fl = getattr(g, 'flags', DEFAULT_FLAGS)
+    hit = []
+    for k, v in env.vars.items():
+        parts = k.split('%')
+        if len(parts) < 2 or parts[0] not in env.vars:
+            continue
+        rt = env.vars[parts[0]]['type']
+        if rt in ('type:tin', 'type:tout') or (rt == 'type:tloc' and parts[1] == 'o' and len(parts) >= 3):
+            hit.append(k)
+    if not hit:
+        return
+    if fl['parent_object_members'] or getattr(g, 'mode', 'defs') == 'defs':
+        feats.add('contained-unit:sees-imported-type-members-of-parent-object')
+        return
+    if 'parent_object_members' not in g.avoided:
+        g.avoided.append('parent_object_members')
+    for k in hit:
+        del env.vars[k]
+
+
 def declare_args(g, env, decls, args, nin=(1, 2), nout=(1, 1), with_n=True, prefix='x'):
     if with_n:
         args.append('n')
@@ -218,6 +240,7 @@ def gen_member(g, host_env, idx, feats):
     ienv = B.Env()
     ienv.vars = {k: dict(v, ro=True) for k, v in host_env.vars.items() if not v.get('fuel')}
     ienv.funcs = list(host_env.funcs)
+    hide_parent_members(g, ienv, feats)
     t = g.pick(['int', 'real'])
     nm = f'ia{idx}'
     ienv.vars[nm] = {'type': t, 'dims': None}
@@ -234,7 +257,7 @@ def gen_member(g, host_env, idx, feats):
     sub = dict(g.p)
     sub.update(calls=False, print=False, where=False, max_depth=1, select=False)
     g2 = B.G(g.draw, sub)
-    g2.flags, g2.avoided = getattr(g, 'flags', DEFAULT_FLAGS), getattr(g, 'avoided', [])
+    g2.flags, g2.avoided, g2.mode = getattr(g, 'flags', DEFAULT_FLAGS), getattr(g, 'avoided', []), getattr(g, 'mode', 'defs')
     body = [['assign', var(nm), B.expr_of(g2, ienv, t, 2)]]
     if g.chance(50):
         body.append(['if', [[B.log_expr(g2, ienv, 1), [['assign', var(nm), B.expr_of(g2, ienv, t, 1)]]]], None])
@@ -257,6 +280,7 @@ def gen_kernel(g, name, mod_env, feats, dtypes, nmembers, calls_tbp=False, with_
     env.vars = {k: dict(v) for k, v in mod_env.vars.items()}
     env.funcs = list(mod_env.funcs)
     env.subs = list(mod_env.subs)
+    hide_parent_members(g, env, feats)
     args, decls, prologue = [], [], []
     sig = declare_args(g, env, decls, args, with_n=not as_function, nout=(0, 0) if as_function else (1, 1))
     if not as_function:
@@ -351,7 +375,8 @@ def _tin_path(env, obj):
 
 
 # ------------------------------------------------------------------ the project
-DEFAULT_FLAGS = {'print': True, 'casts': True, 'dtsym': True, 'members': True, 'frontend_state': True, 'assoc_shadow_root': True}
+DEFAULT_FLAGS = {'print': True, 'casts': True, 'dtsym': True, 'members': True, 'frontend_state': True, 'assoc_shadow_root': True,
+                 'parent_object_members': True}
 
 
 @st.composite
@@ -367,6 +392,9 @@ def projects(draw, thorough=False, kind=None, flags=None):
         members : internal (member) procedures
         assoc_shadow_root : an associate name that shadows the variable its own selector starts with, e.g.
                 ASSOCIATE (lv => lv%o%s)  (off = such a name is replaced by a fresh one)
+        parent_object_members : (modes plain/enrich) a contained unit uses components, reached through an imported
+                type, of a derived-type object declared in its parent (module variable lv%o%.., host object ob0%.. in a
+                member); off = those components are not visible to the statement generators of the contained unit
         frontend_state : judge the units exactly as the frontend (+ enrich) leaves them; off = case['rescope_after_parse']
                 asks for unit.rescope_symbols() on every top-level unit first (AttachScopes normal form: intrinsic
                 names attached to the closest scope, symbols that enrich() left unattached resolved)
@@ -379,6 +407,7 @@ def projects(draw, thorough=False, kind=None, flags=None):
     feats = set()
     avoided = []
     g.flags, g.avoided = flags, avoided
+    g.mode = None
     wants_print = g.chance(60)
     if wants_print and not flags['print']:
         avoided.append('print')
@@ -388,6 +417,7 @@ def projects(draw, thorough=False, kind=None, flags=None):
         avoided.append('casts')
     prof['casts'] = wants_casts and flags['casts']
     mode = g.pick(['defs', 'enrich', 'plain', 'enrich', 'defs'])     # (hypothesis favours the first entries)
+    g.mode = mode
     tbp = g.chance(30)
     # ---------------- tmod: types, parameters, module variables, helpers
     t_funcs_r, t_funcs, t_subs_r, t_subs = [], [], [], []
